@@ -531,6 +531,30 @@ pub fn generate(seed: u64, prop_name: &str) -> PoolScenario {
         sk.extend(ops.drain(..).take(25));
         ops = sk;
     }
+    // C12 planted shape "an id leaves the committable set in the very block that proposes it again":
+    // the pooled transaction must move from proposed to gap (one run in six of the plain C12 runs)
+    if prop == "C12" && !clean_detach && !reopen && Rng::new(seed ^ 0xC12_ED6E).chance(1, 6) {
+        let mut rp = Rng::new(seed ^ 0xC12_ED6F);
+        txs[0].inputs = vec![InRef::G(0)];
+        txs[0].dep = None;
+        txs[0].hdep = None;
+        txs[0].since = None;
+        txs[0].fee = 2_000 + rp.range(0, 2_000);
+        let mut sk = vec![POp::Submit { t: 0, remote: false }, POp::Quiesce];
+        let lead = rp.range(0, 3);
+        if lead > 0 {
+            sk.push(POp::Quiet { n: lead, ts_delta: 3_000, propose: None, seed: rp.below(1 << 40) });
+        }
+        // block a proposes the transaction, nobody commits it; block a + w_far proposes it again
+        sk.push(POp::Quiet { n: cfg.w_far, ts_delta: 3_000, propose: Some(0), seed: rp.below(1 << 40) });
+        if rp.chance(1, 2) {
+            sk.push(POp::Quiesce);
+        }
+        sk.push(POp::Quiet { n: 1, ts_delta: 3_000, propose: Some(0), seed: rp.below(1 << 40) });
+        sk.push(POp::Quiesce);
+        sk.extend(ops.drain(..).take(40));
+        ops = sk;
+    }
     if timelock_shape {
         // chain A: the genesis epoch mined quickly, one slow block ends it (A's next epoch gets half the
         // difficulty), a few blocks into epoch 1; transaction 0, locked until the earliest position the
